@@ -31,13 +31,9 @@ func mapFieldOps(w *core.World, f *core.FuncInfo, op string, depth int, seen map
 			return true
 		}
 		callee := core.Callee(info, c)
-		if stdMethod(callee, "sync", "Map", op) {
-			if sel, ok := ast.Unparen(c.Fun).(*ast.SelectorExpr); ok {
-				if fs, ok := ast.Unparen(sel.X).(*ast.SelectorExpr); ok {
-					if v, ok := info.Uses[fs.Sel].(*types.Var); ok && v.IsField() {
-						out[v.Name()] = true
-					}
-				}
+		if mo, field := mapOp(w, info, c, callee); mo != "" {
+			if mo == op && field != "" {
+				out[field] = true
 			}
 			return true
 		}
@@ -49,6 +45,76 @@ func mapFieldOps(w *core.World, f *core.FuncInfo, op string, depth int, seen map
 		return true
 	})
 	return out
+}
+
+// mapOp: call is an operation on a sync.Map — directly, or through a method of a table type of the repository that
+// forwards to the one sync.Map it owns (`g.futures.Store(id, f)` with Store doing t.entries.Store(id, f)). op is
+// the sync.Map method, field the field (of the caller's struct) the map or table is held in ("" if not a field).
+func mapOp(w *core.World, info *types.Info, call *ast.CallExpr, callee *types.Func) (op, field string) {
+	recvField := func() string {
+		if sel, ok := ast.Unparen(call.Fun).(*ast.SelectorExpr); ok {
+			if fs, ok := ast.Unparen(sel.X).(*ast.SelectorExpr); ok {
+				if v, ok := info.Uses[fs.Sel].(*types.Var); ok && v.IsField() {
+					return v.Name()
+				}
+			}
+		}
+		return ""
+	}
+	if callee == nil {
+		return "", ""
+	}
+	if sig, ok := callee.Type().(*types.Signature); ok && sig.Recv() != nil && callee.Pkg() != nil && callee.Pkg().Path() == "sync" {
+		if n := core.RecvNamed(callee); n != nil && n.Obj().Name() == "Map" {
+			return callee.Name(), recvField()
+		}
+		return "", ""
+	}
+	g := w.Info(callee)
+	if g == nil || g.Decl.Recv == nil || g.Decl.Body == nil || len(g.Decl.Recv.List) != 1 || len(g.Decl.Recv.List[0].Names) != 1 {
+		return "", ""
+	}
+	ro := g.Pkg.TypesInfo.Defs[g.Decl.Recv.List[0].Names[0]]
+	// a table type: its struct is the one sync.Map (and nothing else map-like)
+	if rn := core.RecvNamed(g.Obj); rn == nil {
+		return "", ""
+	} else if st, ok := rn.Underlying().(*types.Struct); !ok {
+		return "", ""
+	} else {
+		maps := 0
+		for i := 0; i < st.NumFields(); i++ {
+			if strings.HasSuffix(st.Field(i).Type().String(), "sync.Map") {
+				maps++
+			}
+		}
+		if maps != 1 || st.NumFields() > 2 {
+			return "", ""
+		}
+	}
+	inner, n := "", 0
+	ast.Inspect(g.Decl.Body, func(m ast.Node) bool {
+		c, ok := m.(*ast.CallExpr)
+		if !ok {
+			return true
+		}
+		f := core.Callee(g.Pkg.TypesInfo, c)
+		if f == nil || f.Pkg() == nil || f.Pkg().Path() != "sync" || core.RecvNamed(f) == nil || core.RecvNamed(f).Obj().Name() != "Map" {
+			return true
+		}
+		if sel, ok := ast.Unparen(c.Fun).(*ast.SelectorExpr); ok {
+			if fs, ok := ast.Unparen(sel.X).(*ast.SelectorExpr); ok {
+				if id, ok := ast.Unparen(fs.X).(*ast.Ident); ok && g.Pkg.TypesInfo.Uses[id] == ro {
+					inner = f.Name()
+					n++
+				}
+			}
+		}
+		return true
+	})
+	if n != 1 {
+		return "", ""
+	}
+	return inner, recvField()
 }
 
 func keysOf(m map[string]bool) string {
@@ -168,13 +234,14 @@ func checkC14(r *core.Run) {
 			}
 			seen[g] = true
 			for _, cs := range w.Calls(g) {
-				if stdMethod(cs.Static, "sync", "Map", "Store") {
+				if op, _ := mapOp(w, g.Pkg.TypesInfo, cs.Call, cs.Static); op == "Store" {
 					store = true
 				}
 				if cs.Static != nil && cs.Static.Name() == "WritePkg" {
 					write = true
 				}
-				if h := w.Info(cs.Static); h != nil && core.RecvNamed(h.Obj) == gr {
+				if h := w.Info(cs.Static); h != nil && h.Pkg.PkgPath == pGetty && core.RecvNamed(h.Obj) != nil {
+					// methods of the type itself, and of a table type of the package that wraps the map
 					walk(h, d-1)
 				}
 			}
@@ -229,10 +296,11 @@ func checkC14(r *core.Run) {
 	}
 	sp := &flow.Spec{W: w, Depth: 0, Split: []flow.Tag{"fail:write"},
 		Classify: func(pkg *packages.Package, call *ast.CallExpr, callee *types.Func) []flow.Tag {
+			op, _ := mapOp(w, pkg.TypesInfo, call, callee)
 			switch {
-			case stdMethod(callee, "sync", "Map", "Store"):
+			case op == "Store":
 				return []flow.Tag{"store"}
-			case stdMethod(callee, "sync", "Map", "Delete"):
+			case op == "Delete":
 				return []flow.Tag{"delete"}
 			case callee != nil && callee.Name() == "WritePkg":
 				return []flow.Tag{"write"}
@@ -381,12 +449,9 @@ func checkC14(r *core.Run) {
 			switch {
 			case callee != nil && callee.Name() == "After" && len(call.Args) == 1:
 				return []flow.Tag{"timeout"}
-			case stdMethod(callee, "sync", "Map", "Delete") || stdMethod(callee, "sync", "Map", "LoadAndDelete"):
-				if sel, ok := ast.Unparen(call.Fun).(*ast.SelectorExpr); ok {
-					if fs, ok := ast.Unparen(sel.X).(*ast.SelectorExpr); ok {
-						return []flow.Tag{"delete:" + fs.Sel.Name}
-					}
-				}
+			}
+			if op, field := mapOp(w, pkg.TypesInfo, call, callee); (op == "Delete" || op == "LoadAndDelete") && field != "" {
+				return []flow.Tag{"delete:" + field}
 			}
 			return nil
 		}}
